@@ -75,17 +75,17 @@ KINDS = ('This time prefer kinds of transformation such as: `x in (a, b)` rewrit
 
 NEUTRAL_JOBS = {
     'N7': ('yalafi/parser.py',
-           'Prefer these functions: Parser.parse, parse_def_macro, remove_pure_action_lines (incl. its inner eval), expand_accent, parse_keyvals_list / parse_keyvals_dict, expand_arguments, expand_environ_start, expand_macro, init_extractions.'),
+           'Prefer these functions: Parser.init_package, modify_parameters, parser_work (the LT-SKIP loop), arg_buffer, expand_macro (the loop that skips space), expand_arguments (incl. the look-ahead that collects language tokens), generate_replacements, expand_item, begin_environment / end_environment, expand_verb_env_token.'),
     'N8': ('yalafi/scanner.py, yalafi/parameters.py, yalafi/defs.py',
-           'Prefer these functions: Scanner.next_token, scan_comment, scan_space, scan_macro_name, scan_arg_token, Buffer.look_ahead / skip_space / back, Parameters.macro_character, change_parser_lang, check_parser_lang, ParserLanguageSettings.__init__, init_collections, init_math_collections.'),
+           'Prefer these functions: Scanner.scan, next_token, scan_verb, scan_verbatim, scan_macro, Buffer.look_ahead / skip_space / is_space, Parameters.init_math_collections, the language tables (math_op_text etc. - keep the values), Parameters.no_specials, Expandable.__init__.'),
     'N9': ('yalafi/utils.py, yalafi/tex2txt.py',
-           'Prefer these functions: replace_phrases, substitute, get_txt_pos, get_txt_pos_ml, ml_append_placeholder, ml_check_lang_section, ml_split / ml_join helpers, get_module_handler, get_packages, latex_error, filter_set_toks, tex2txt, read_replacements, write_output, translate_numbers, get_line_starts.'),
-    'N10': ('yalafi/shell/shell.py, yalafi/shell/checks.py, yalafi/shell/genhtml.py, yalafi/shell/proofreader.py',
-            'Prefer: the option handling at module level of shell.py (configuration file, defaults, normalisation of option values, construction of the single-letter / equation patterns), checks.create_single_letter_matches, checks.create_equation_punct_messages, genhtml.generate_html (all three phases), generate_highlight, begin_match, protect_html, add_line_numbers, proofreader.run_languagetool, run_proofreader_options.'),
+           'Prefer these functions: replace_phrases, substitute, get_txt_pos_ml (merge heuristic at the end), latex_error, get_module_handler, get_packages, tex2txt (option handling), read_replacements, read_definitions, main, translate_numbers.'),
+    'N10': ('yalafi/shell/shell.py, yalafi/shell/checks.py, yalafi/shell/genhtml.py, yalafi/shell/proofreader.py, yalafi/shell/server.py, yalafi/shell/gentext.py',
+            'Prefer: checks.create_single_letter_matches, create_equation_punct_messages, create_context, create_message; genhtml.begin_match, generate_html (all loops), add_line_numbers; proofreader.run_proofreader_options (the loop over the text parts), run_textgears; server.Handler.create_message; gentext.output_list_unknown, output_text_report.'),
     'N11': ('yalafi/mathparser.py, yalafi/handlers.py',
-            'Prefer: MathParser.expand_display_math, expand_inline_math, expand_math_section, replace_section / MathPartState and its helpers, handlers.h_newcommand, h_heading, h_phantom, h_load_defs, h_usepackage, h_documentclass, h_hspace, h_theorem, h_begin_verbatim / verb handling.'),
-    'N12': ('yalafi/packages/*.py, yalafi/documentclasses/*.py',
-            'Prefer the modules with real logic: babel.py, glossaries.py, cleveref.py, biblatex.py, amsthm.py, xcolor.py, graphicx.py, listings.py, pgfplots.py, unicode_math.py, tikz.py, and the handler functions inside them (argument indexing, key-value parsing, language switching, reading of auxiliary files).'),
+            'Prefer: MathParser.expand_math_section (the long if-chain), expand_inline_math, MathPartToken.last_char / leading_op, handlers.h_newcommand, h_load_defs, h_load_module, h_heading, h_cite, h_newtheorem.'),
+    'N12': ('yalafi/packages/*.py, yalafi/documentclasses/*.py, yalafi/shell/addpacks.py',
+            'Prefer: babel.py (init_module, all handlers, get_language_token), xspace.py, amsthm.py, glossaries.py (cap_first, cap_all, h_gls, modify_description), cleveref.py, packages/__init__.py (keep the table contents), addpacks.init_module.'),
 }
 
 
